@@ -18,6 +18,10 @@ if tag.startswith("e"):
     EXTRA = """
 This is a fifth round; the harness has already been shown (and hardened against) operator flips, off-by-one changes, dropped cache invalidations, aliased lists, reordered statements, incomplete setters, caches keyed without the encoding, dropped special cases of rare options, falsy-value tests, disagreeing method pairs (rows/render, pack/render, hit-test/render), stale state after a handled exception, range limits, skipped bookkeeping, and un-rendered call pairs. Look for something it has probably not seen: a sibling class or variant of the obvious one (a subclass, a deprecated alias, the second of two walkers/loops/back-ends, the str path versus the bytes path); class-level or module-level state shared by several instances; mutable default arguments; behaviour that depends on the *order* in which two independent objects are created or used; values that are equal but not identical (or the reverse); negative, zero or very large sizes and counts (hundreds of columns, thousands of items); text made of unusual but legal characters (tabs, carriage returns, zero-width joiners, characters outside the BMP, the last code point); an exception type changed to a sibling type; a return value changed from None/True/False to another falsy/truthy value; cleanup that happens twice or not at all when the same step is repeated. Keep the change small and plausible, and prefer a different file for each of the three changes when the anchors allow it.
 """
+if tag.startswith("f"):
+    EXTRA = """
+This is a sixth round; the harness has been hardened against everything listed for the earlier rounds (operator flips, off-by-one, cache invalidation, aliasing, statement order, incomplete setters, encoding-blind caches, rare options, falsy tests, disagreeing method pairs, state after handled exceptions, range limits, skipped bookkeeping, un-rendered call pairs, sibling classes, shared class/module state, creation order, identity versus equality, sizes above 256, control characters, sibling exception types, changed return values). Try something else again: the unfocused path (focus=False) where only the focused one is usually exercised, or the reverse; the second call of an idempotent operation (render twice, start/stop twice, connect the same thing twice, set the same value twice); inputs of an unusual but accepted *type* (bytearray or memoryview instead of bytes, a str subclass, bool or float where an int is expected, a tuple subclass, a generator where a list is expected, an unhashable or unorderable attribute name); objects that define their own __eq__/__hash__/__bool__/__len__; a subclass overriding one method of a pair; a documented read-only view that is handed out live (or a copy where the live object was promised); mutation of a container while the library iterates over it; two different widgets of the anchors combined in one tree in a way each is fine alone; events with identical time stamps or zero/negative delays; aliases and letter case of encoding names. Keep each change small and plausible, in three different functions.
+"""
 prop = next(json.loads(l) for l in open('/verif/properties.jsonl') if json.loads(l)['id'] == pid)
 wt = f"/tmp/seedwork/wt_{pid}_{tag}"
 if not os.path.exists(wt):
